@@ -146,7 +146,7 @@ def replay(crate, harness_full, harness_file, unwind=4, timeout=900):
         return res
     test_src = m.group(1)
     res['test_src'] = test_src
-    header = open(slot).read().split('\n')[0]
+    header = '// (generated at replay time; empty otherwise) concrete-playback tests for the harnesses of this module'
     e = _env()
     e['CARGO_TARGET_DIR'] = os.path.join(CACHE, 'kani-playback-target')
     try:
